@@ -55,6 +55,15 @@ def check_cache(
     return cache_key, restored
 
 
+def is_resuming_interrupt(node: HyperNode, state: GraphState) -> bool:
+    """True when the caller supplied the response of an interrupt that has not run yet.
+
+    A supplied response is an answer, not a computed result: it must neither be
+    shadowed by a cached entry nor stored as one.
+    """
+    return node.is_interrupt and node.name not in state.node_executions and all(o in state.values for o in node.data_outputs)
+
+
 def _routing_config(node: HyperNode) -> tuple:
     """Routing configuration that shapes a gate's cached decision."""
     if isinstance(node, IfElseNode):
